@@ -7,6 +7,7 @@ import (
 	"pigeonverif/internal/variants"
 	"regexp"
 	"sort"
+	"strconv"
 	"strings"
 
 	"pigeonverif/internal/absint"
@@ -27,6 +28,7 @@ func C01(c *Ctx) {
 	r.Rule("C01-b", "choice: alternatives are evaluated in slice order, the function returns at the first ok child with nothing evaluated after it, and returns failure only outside the loop; */+: the loop is left only after a failing child; each successful child contributes exactly one appended value; + fails iff nothing was appended; ? returns true on every path")
 	r.Rule("C01-c", "value provenance per kind (see DESIGN.md Appendix A): terminals sliceFrom(entry savepoint) up to the current position; predicates, state blocks and every ok=false return the literal nil; seq/*/+ the accumulator; choice/label/?/ruleRef/recovery/throw the child's value unchanged; action the result of the code block")
 	r.Rule("C01-d", "the type switch of parseExpr has one case per node type the builder can emit in this variant, each calling the evaluator of that kind with the switched value, and a default that panics; the builder lower-cases literal/class members iff it emits ignoreCase:true for the same node and the runtime folds the input rune iff ignoreCase")
+	r.Rule("C01-h", "class membership is any-of over the members: inside the loops of parseCharClassMatcher over chars, ranges and Unicode classes no local is set to the value of a test or to false (a flag may only rise to true) - a flag that every member overwrites lets the last member alone decide")
 	r.Rule("C01-e", "in parseAnyMatcher, parseCharClassMatcher and parseLitMatcher every call of read() is dominated by the fact 'not at end of input' (false edge of rn==utf8.RuneError && w==0 on the unfolded current rune, or true edge of cur < K with K <= 0xFFFD)")
 	r.Rule("C01-f", "parse() builds the rule table from all g.rules, looks the start rule up by p.entrypoint, and reports errInvalidEntrypoint with a nil value when it is absent")
 	r.Rule("C01-g", "under IgnoreCase the builder emits the lower-case image of a range, not the interval between its lower-cased end points: the runtime tests low <= fold(input) <= high, and unicode.ToLower is not monotone ([A-z]i must still match the runes between Z and a)")
@@ -58,6 +60,7 @@ func C01(c *Ctx) {
 		c01c(c, a)
 		c01dDispatch(c, a)
 		c01e(c, a)
+		c01h(c, a.V)
 		dataReaders(c, a.V, "C01-c")
 		c01f(c, a)
 	}
@@ -870,4 +873,79 @@ func c01gRangeImage(c *Ctx, rule string) {
 	r.Check(len(bad) == 0 && nRanges >= 1, rule, "G.builder.writeCharClassMatcher:ranges:case-image-of-a-range", "", g.Where(fd.Pos()),
 		fmt.Sprintf("%d emissions of range end points, none a case mapping of a single end point", nRanges),
 		fmt.Sprintf("emissions=%d %s: the lower-case image of a range is not the interval between its lower-cased end points ([A-z]i does not match '_', [Z-a]i matches nothing)", nRanges, strings.Join(uniq(bad), "; ")))
+}
+
+// c01h (C01-h): a rune is in a class if it is one of the chars, in one of the ranges or in one of the Unicode classes:
+// each of the three member loops decides "some member matches". Structurally, on the normalised paths of
+// parseCharClassMatcher (helpers expanded): inside a loop over chr.chars, chr.ranges or chr.classes a local may be
+// set to the constant true (a flag that only rises), but not to the value of a test or to false - a flag that every
+// member overwrites lets the last member alone decide ([\p{Lu}\p{Nd}] then rejects "A").
+func c01h(c *Ctx, v *variants.Variant) {
+	r := c.R
+	fd := v.Func("parser", "parseCharClassMatcher")
+	if fd == nil || fd.Body == nil {
+		return
+	}
+	chr := firstParam(fd)
+	nLoops := map[string]bool{}
+	var bad []string
+	for _, p := range c.vnorm(v).without("read", "restore", "failAt", "sliceFrom", "addErr", "addErrAt", "in", "out").normPaths(fd) {
+		var stack []string
+		var headers []string
+		for _, e := range p {
+			switch e.Kind {
+			case "loop":
+				headers = append(headers, e.Text)
+				which := ""
+				for _, f := range []string{"chars", "ranges", "classes"} {
+					if strings.Contains(e.Text, chr+"."+f) {
+						which = f
+					}
+				}
+				stack = append(stack, which)
+				if which != "" {
+					nLoops[which] = true
+				}
+			case "endloop":
+				if len(stack) > 0 {
+					stack = stack[:len(stack)-1]
+					headers = headers[:len(headers)-1]
+				}
+			case "set":
+				in := ""
+				for _, w := range stack {
+					if w != "" {
+						in = w
+					}
+				}
+				eq := strings.Index(e.Text, "=")
+				if in == "" || eq <= 0 || !strings.HasPrefix(e.Text, "$") || strings.ContainsAny(e.Text[:eq], "+-[") {
+					continue
+				}
+				rhs := e.Text[eq+1:]
+				// loop counters of the member loops themselves ($i=0, $i=$i+2) are not flags
+				if _, err := strconv.Atoi(rhs); err == nil {
+					continue
+				}
+				// a flag the loop itself stops on (`for i := 0; !found && i < n; i++ { found = test }`) only rises
+				stopsOnFlag := false
+				for _, h := range headers {
+					if strings.Contains(h, "!"+e.Text[:eq]+"&&") || strings.Contains(h, "&&!"+e.Text[:eq]) || strings.HasSuffix(h, "!"+e.Text[:eq]) {
+						stopsOnFlag = true
+					}
+				}
+				if stopsOnFlag {
+					continue
+				}
+				if rhs != "true" && (rhs == "false" || strings.Contains(rhs, "unicode.Is(") || strings.Contains(rhs, "==") || strings.Contains(rhs, ">=") || strings.Contains(rhs, "<=")) {
+					bad = append(bad, fmt.Sprintf("%s: inside the loop over %s.%s a local is set to `%s`: every member overwrites what the one before it found, so only the last member decides", v.Where(e.Node.Pos()), chr, in, abbreviate(rhs)))
+				}
+			}
+		}
+	}
+	if len(nLoops) == 0 {
+		return // the general path is not part of this function (nothing to decide here; C15-a reports a missing general path)
+	}
+	r.Check(len(bad) == 0, "C01-h", "T.parseCharClassMatcher:membership-is-any-of-the-members", v.Name, v.Where(fd.Pos()),
+		fmt.Sprintf("member loops over %v: a match of any member decides (no flag is overwritten per member)", keysOf(nLoops)), strings.Join(uniq(bad), "; "))
 }
